@@ -21,7 +21,7 @@ RULE = ('worlds 2-6; group mixtures per communicator (WORLD, pairs, triples, dis
         'distinct = hash(group mixture, capacity class, flag pattern)')
 ASSUMPTIONS = ['all members of a group submit the same tensors for that group in the same order (the API\'s contract)',
                'simdist stands in for the c10d backend; a few worlds per shard run the same per-rank program as real gloo processes (value oracle only, completion callbacks on gloo threads)']
-REQUIRED = ['value_checks', 'segmentation_checks', 'multi_tensor_buckets', 'multi_group_runs', 'real_gloo_worlds']
+REQUIRED = ['value_checks', 'segmentation_checks', 'multi_tensor_buckets', 'multi_group_runs']
 
 DTS = {'float32': 4, 'float64': 8, 'bfloat16': 2}
 
